@@ -192,15 +192,32 @@ class Cell(NullCell):
         # Hash_repr(c) := sha256(CellRepr(c))
         return hashlib.sha256(self.get_representation()).digest()
 
-    def order(self, result: dict = {}) -> dict:
+    def order(self, result: dict = None) -> dict:
         """
         :return: dict {<Cell>: <index>}
         """
-        if self in result:
-            result.pop(self)
-        result[self] = None
-        for ref in self.refs:
-            ref.order(result)
+        if result is None:
+            result = {}
+        # Reverse post-order of a depth-first search that visits references right to left: every cell
+        # precedes all cells it references, each distinct cell is visited once (linear in cells + references),
+        # and no recursion is used, so maximal-depth chains and heavily shared DAGs are fine.
+        post = []
+        visited = {self}
+        stack = [(self, iter(reversed(self.refs)))]
+        while stack:
+            cell, refs = stack[-1]
+            for ref in refs:
+                if ref not in visited:
+                    visited.add(ref)
+                    stack.append((ref, iter(reversed(ref.refs))))
+                    break
+            else:
+                stack.pop()
+                post.append(cell)
+        for cell in reversed(post):
+            if cell in result:
+                result.pop(cell)
+            result[cell] = None
         return result
 
     def serialize(self, indexes: dict, byte_len: int) -> bytes:
